@@ -296,3 +296,91 @@ package document
 //@   invariant bdrLine(border.Right, lastKid(old(xmlPos()), xmlPos(), "right"))
 //@   decreases xmlRem()
 //@ spec bdrLine(l *ParagraphBorderLine, k int) bool = ite(k < 0, l == nil, l != nil && l.Val == av(k, "val") && l.Color == av(k, "color") && l.Sz == av(k, "sz") && l.Space == av(k, "space"))
+
+
+// parseParagraphProperties / parseNumberingProperties (C03 "same paragraph formatting"): the style id, the alignment, the
+// keep/page-break/widow/outline/grid settings and the numbering reference of the paragraph are exactly the w:val attributes of the
+// LAST child of the respective name (w:pStyle and w:jc: the last one that has a non-empty w:val - an element without it says
+// nothing and is ignored); absent children leave the field nil (numbering: the paragraph refers to a numbering object iff it has a w:numPr child; what that
+// object holds - level and numbering id of the last w:ilvl / w:numId with a value - is stated on parseNumberingProperties). Spacing, indentation and border are read by the same function
+// (border: parseParagraphBorder above); w:tabs is not read (see the report).
+// lastValKid(p0, p, name): start of the last complete child named name in [p0, p) that carries a non-empty val attribute; -1: none
+//@ spec lastValKid(p0 int, p int, name string) int = ite(p <= p0 || p <= 0, -1, ite(closesKid(p0, p), ite(tokLocal(xmlOpen(p - 1)) == name && av(xmlOpen(p - 1), "val") != "", xmlOpen(p - 1), lastValKid(p0, xmlOpen(p - 1), name)), lastValKid(p0, p - 1, name)))
+//@ spec ppParagraphStyle(q *ParagraphProperties, k int) bool = ite(k < 0, q.ParagraphStyle == nil, q.ParagraphStyle != nil && q.ParagraphStyle.Val == av(k, "val"))
+//@ spec ppJustification(q *ParagraphProperties, k int) bool = ite(k < 0, q.Justification == nil, q.Justification != nil && q.Justification.Val == av(k, "val"))
+//@ spec ppKeepNext(q *ParagraphProperties, k int) bool = ite(k < 0, q.KeepNext == nil, q.KeepNext != nil && q.KeepNext.Val == av(k, "val"))
+//@ spec ppKeepLines(q *ParagraphProperties, k int) bool = ite(k < 0, q.KeepLines == nil, q.KeepLines != nil && q.KeepLines.Val == av(k, "val"))
+//@ spec ppPageBreakBefore(q *ParagraphProperties, k int) bool = ite(k < 0, q.PageBreakBefore == nil, q.PageBreakBefore != nil && q.PageBreakBefore.Val == av(k, "val"))
+//@ spec ppWidowControl(q *ParagraphProperties, k int) bool = ite(k < 0, q.WidowControl == nil, q.WidowControl != nil && q.WidowControl.Val == av(k, "val"))
+//@ spec ppOutlineLevel(q *ParagraphProperties, k int) bool = ite(k < 0, q.OutlineLevel == nil, q.OutlineLevel != nil && q.OutlineLevel.Val == av(k, "val"))
+//@ spec ppSnapToGrid(q *ParagraphProperties, k int) bool = ite(k < 0, q.SnapToGrid == nil, q.SnapToGrid != nil && q.SnapToGrid.Val == av(k, "val"))
+//@ spec numIlvl(n *NumberingProperties, k int) bool = ite(k < 0, n.ILevel == nil, n.ILevel != nil && n.ILevel.Val == av(k, "val"))
+//@ spec numID(n *NumberingProperties, k int) bool = ite(k < 0, n.NumID == nil, n.NumID != nil && n.NumID.Val == av(k, "val"))
+//@ spec ppNum(q *ParagraphProperties, e int) bool = (q.NumberingProperties != nil) == (e >= 0)
+//@ func (*Document).parseNumberingProperties
+//@ props C06, C03
+//@ requires d != nil && decoder != nil
+//@ requires xmlPos() >= 1 && tokIsStart(xmlPos() - 1) && tokLocal(xmlPos() - 1) == "numPr"
+//@ ensures xmlRem() <= old(xmlRem())
+//@ ensures xmlPos() >= old(xmlPos())
+//@ ensures err == nil ==> xmlPos() > old(xmlPos()) && tokIsEnd(xmlPos() - 1) && xmlDepth(xmlPos()) == old(xmlDepth(xmlPos())) - 1
+//@ ensures err == nil ==> forall k int :: {xmlDepth(k)} old(xmlPos()) <= k && k < xmlPos() ==> xmlDepth(k) >= old(xmlDepth(xmlPos()))
+//@ ensures err == nil ==> xmlOpen(xmlPos() - 1) == old(xmlPos()) - 1
+//@ ensures old(d.Body) != nil ==> d.Body != nil
+//@ ensures old(d.Body) != nil && old(elemsOK(d.Body.Elements)) ==> elemsOK(d.Body.Elements)
+//@ ensures err == nil ==> result0 != nil
+//@ ensures err == nil ==> numIlvl(result0, lastValKid(old(xmlPos()), xmlPos() - 1, "ilvl"))
+//@ ensures err == nil ==> numID(result0, lastValKid(old(xmlPos()), xmlPos() - 1, "numId"))
+//@ loop 1
+//@   invariant xmlRem() <= old(xmlRem())
+//@   invariant xmlPos() >= old(xmlPos()) && xmlDepth(xmlPos()) == old(xmlDepth(xmlPos()))
+//@   invariant forall k int :: {xmlDepth(k)} old(xmlPos()) <= k && k < xmlPos() ==> xmlDepth(k) >= old(xmlDepth(xmlPos()))
+//@   invariant old(d.Body) != nil ==> d.Body != nil
+//@   invariant old(d.Body) != nil && old(elemsOK(d.Body.Elements)) ==> elemsOK(d.Body.Elements)
+//@   invariant numPr != nil && fresh(numPr)
+//@   invariant numIlvl(numPr, lastValKid(old(xmlPos()), xmlPos(), "ilvl"))
+//@   invariant numID(numPr, lastValKid(old(xmlPos()), xmlPos(), "numId"))
+//@   decreases xmlRem()
+
+//@ func (*Document).parseParagraphProperties
+//@ props C06, C03
+//@ wf ParagraphProperties.NumberingProperties, NumberingProperties.ILevel, NumberingProperties.NumID
+//@ requires d != nil && decoder != nil && paragraph != nil
+//@ requires xmlPos() >= 1 && tokIsStart(xmlPos() - 1) && tokLocal(xmlPos() - 1) == "pPr"
+//@ ensures xmlRem() <= old(xmlRem())
+//@ ensures xmlPos() >= old(xmlPos())
+//@ ensures err == nil ==> xmlPos() > old(xmlPos()) && tokIsEnd(xmlPos() - 1) && xmlDepth(xmlPos()) == old(xmlDepth(xmlPos())) - 1
+//@ ensures err == nil ==> forall k int :: {xmlDepth(k)} old(xmlPos()) <= k && k < xmlPos() ==> xmlDepth(k) >= old(xmlDepth(xmlPos()))
+//@ ensures err == nil ==> xmlOpen(xmlPos() - 1) == old(xmlPos()) - 1
+//@ ensures err == nil && kidCnt(old(xmlPos()), xmlPos() - 1, "sectPr") == 0 ==> d.Body == old(d.Body) && len(d.Body.Elements) == old(len(d.Body.Elements)) && (forall j int :: 0 <= j && j < len(d.Body.Elements) ==> d.Body.Elements[j] == old(d.Body.Elements[j]))
+//@ ensures old(d.Body) != nil ==> d.Body != nil
+//@ ensures old(d.Body) != nil && old(elemsOK(d.Body.Elements)) ==> elemsOK(d.Body.Elements)
+//@ ensures paragraph.Properties != nil
+//@ ensures err == nil ==> ppParagraphStyle(paragraph.Properties, lastValKid(old(xmlPos()), xmlPos() - 1, "pStyle"))
+//@ ensures err == nil ==> ppJustification(paragraph.Properties, lastValKid(old(xmlPos()), xmlPos() - 1, "jc"))
+//@ ensures err == nil ==> ppKeepNext(paragraph.Properties, lastKid(old(xmlPos()), xmlPos() - 1, "keepNext"))
+//@ ensures err == nil ==> ppKeepLines(paragraph.Properties, lastKid(old(xmlPos()), xmlPos() - 1, "keepLines"))
+//@ ensures err == nil ==> ppPageBreakBefore(paragraph.Properties, lastKid(old(xmlPos()), xmlPos() - 1, "pageBreakBefore"))
+//@ ensures err == nil ==> ppWidowControl(paragraph.Properties, lastKid(old(xmlPos()), xmlPos() - 1, "widowControl"))
+//@ ensures err == nil ==> ppOutlineLevel(paragraph.Properties, lastKid(old(xmlPos()), xmlPos() - 1, "outlineLvl"))
+//@ ensures err == nil ==> ppSnapToGrid(paragraph.Properties, lastKid(old(xmlPos()), xmlPos() - 1, "snapToGrid"))
+//@ ensures err == nil ==> ppNum(paragraph.Properties, lastKidEnd(old(xmlPos()), xmlPos() - 1, "numPr"))
+//@ loop 1
+//@   invariant xmlRem() <= old(xmlRem())
+//@   invariant xmlPos() >= old(xmlPos()) && xmlDepth(xmlPos()) == old(xmlDepth(xmlPos()))
+//@   invariant forall k int :: {xmlDepth(k)} old(xmlPos()) <= k && k < xmlPos() ==> xmlDepth(k) >= old(xmlDepth(xmlPos()))
+//@   invariant kidCnt(old(xmlPos()), xmlPos(), "sectPr") >= 0
+//@   invariant kidCnt(old(xmlPos()), xmlPos(), "sectPr") == 0 ==> d.Body == old(d.Body) && len(d.Body.Elements) == old(len(d.Body.Elements)) && (forall j int :: 0 <= j && j < len(d.Body.Elements) ==> d.Body.Elements[j] == old(d.Body.Elements[j]))
+//@   invariant old(d.Body) != nil ==> d.Body != nil
+//@   invariant old(d.Body) != nil && old(elemsOK(d.Body.Elements)) ==> elemsOK(d.Body.Elements)
+//@   invariant paragraph.Properties != nil && fresh(paragraph.Properties)
+//@   invariant ppParagraphStyle(paragraph.Properties, lastValKid(old(xmlPos()), xmlPos(), "pStyle"))
+//@   invariant ppJustification(paragraph.Properties, lastValKid(old(xmlPos()), xmlPos(), "jc"))
+//@   invariant ppKeepNext(paragraph.Properties, lastKid(old(xmlPos()), xmlPos(), "keepNext"))
+//@   invariant ppKeepLines(paragraph.Properties, lastKid(old(xmlPos()), xmlPos(), "keepLines"))
+//@   invariant ppPageBreakBefore(paragraph.Properties, lastKid(old(xmlPos()), xmlPos(), "pageBreakBefore"))
+//@   invariant ppWidowControl(paragraph.Properties, lastKid(old(xmlPos()), xmlPos(), "widowControl"))
+//@   invariant ppOutlineLevel(paragraph.Properties, lastKid(old(xmlPos()), xmlPos(), "outlineLvl"))
+//@   invariant ppSnapToGrid(paragraph.Properties, lastKid(old(xmlPos()), xmlPos(), "snapToGrid"))
+//@   invariant ppNum(paragraph.Properties, lastKidEnd(old(xmlPos()), xmlPos(), "numPr"))
+//@   decreases xmlRem()
